@@ -123,6 +123,9 @@ def _tag(r, *vs):
     return r
 
 
+_PURE_METHODS = {'items', 'keys', 'values', 'get', 'startswith', 'endswith', 'lower', 'upper', 'strip', 'split', 'index', 'count'}
+
+
 class UserFn:
     """a function of the code under verification that is inlined at its call sites (helper without contract, nested def).
     A nested function reads the variables of its defining function as they are at the call (it must be called from there)."""
@@ -607,6 +610,11 @@ class Exec:
         import math
         if getattr(f, '__module__', None) == 'math' and not kwargs and all(not is_sym(a) and not isinstance(a, Model) for a in args):
             return f(*args)         # pure function of the math module on concrete numbers
+        recv = getattr(f, '__self__', None)
+        if isinstance(recv, (dict, str, tuple, frozenset)) and getattr(f, '__name__', '') in _PURE_METHODS and \
+                all(not is_sym(a) and not isinstance(a, Model) for a in list(args) + list(kwargs.values())):
+            r = f(*args, **kwargs)      # read-only method of a concrete constant (e.g. a module-level table)
+            return list(r) if getattr(f, '__name__', '') in ('items', 'keys', 'values') else r
         uf = self.user_function(f)
         if uf is not None:
             return self.inline(st, uf, args, kwargs, node)
